@@ -13,7 +13,7 @@ open Avro
 
 /-! ### Part 1: primitives, unconditionally -/
 
-theorem fillBuf_ok (s : RState) :
+theorem fillBuf_ok_ocf (s : RState) :
     ∃ a s', fillBuf s = (.ok (s.rest.take a), s') ∧ s'.rest = s.rest ∧
       s'.isSlice = s.isSlice ∧ s'.limit = s.limit := by
   unfold fillBuf
@@ -38,7 +38,7 @@ theorem readSome_ok (k : Nat) (s : RState) :
   rw [readSome_eq]
   by_cases hk : s.lim k = 0
   · exact ⟨[], s, by simp [hk], Nat.le_refl _, fun h => absurd rfl h⟩
-  · obtain ⟨a, s1, hf, h2, _, _⟩ := fillBuf_ok s
+  · obtain ⟨a, s1, hf, h2, _, _⟩ := fillBuf_ok_ocf s
     refine ⟨(s.rest.take a).take (min (s.lim k) (s.rest.take a).length),
       { s1 with rest := s1.rest.drop (min (s.lim k) (s.rest.take a).length),
                 avail := s1.avail - min (s.lim k) (s.rest.take a).length,
@@ -180,7 +180,7 @@ theorem readVarint_ok {t : VarTy} {s s' : RState} {v : Int} (h : readVarint t s 
       rw [← h.2]
       simp only [List.length_drop]
       omega
-  · obtain ⟨a, s1, hf, h2, _, _⟩ := fillBuf_ok s
+  · obtain ⟨a, s1, hf, h2, _, _⟩ := fillBuf_ok_ocf s
     simp only [hf] at h
     split at h
     · rename_i v' k hd
@@ -209,7 +209,7 @@ theorem readVarint_no_panic (t : VarTy) (s s' : RState) : readVarint t s ≠ (.e
   unfold readVarint
   split
   · split <;> simp
-  · obtain ⟨a, s1, hf, _, _, _⟩ := fillBuf_ok s
+  · obtain ⟨a, s1, hf, _, _, _⟩ := fillBuf_ok_ocf s
     simp only [hf]
     split
     · simp [consume, Prod.map]
@@ -448,7 +448,7 @@ theorem nextInner_fuel (d : Decomp) (datum : RState → Except DeErr α × RStat
       | broken => rfl
       | notInBlock =>
         simp only
-        obtain ⟨a, o, hf, ho, _, _⟩ := fillBuf_ok outer
+        obtain ⟨a, o, hf, ho, _, _⟩ := fillBuf_ok_ocf outer
         simp only [hf]
         split
         · rfl
@@ -495,7 +495,7 @@ theorem nextInner_no_panic (d : Decomp) (datum : RState → Except DeErr α × R
     | broken => simp
     | notInBlock =>
       simp only
-      obtain ⟨a, o, hf, ho, _, _⟩ := fillBuf_ok outer
+      obtain ⟨a, o, hf, ho, _, _⟩ := fillBuf_ok_ocf outer
       simp only [hf]
       split
       · simp
@@ -556,7 +556,7 @@ theorem nextInner_keeps (d : Decomp) (datum : RState → Except DeErr α × RSta
     | broken => exact ⟨rfl, rfl, id⟩
     | notInBlock =>
       simp only
-      obtain ⟨a, o, hf, ho, _, _⟩ := fillBuf_ok outer
+      obtain ⟨a, o, hf, ho, _, _⟩ := fillBuf_ok_ocf outer
       simp only [hf]
       split
       · exact ⟨rfl, rfl, fun _ n hn => by simp at hn⟩
